@@ -57,6 +57,12 @@ class Ref:
             return (fresh("rows", "int"), 1)
         if attr in ("isin", "intersection", "difference"):
             return _Meth(self, attr)
+        if attr in ("copy", "astype", "to_numpy"):
+            return _Same(self)
+        if attr == "any":
+            return _Any(self)
+        if self.desc and self.desc[0] in ("rows", "loc"):
+            return Ref(("sub", self.desc, attr))         # column of a row selection
         raise Unsupported("attribute %s of %r (line %d)" % (attr, self, lineno))
 
     def getitem(self, ev, key, lineno):
@@ -75,6 +81,11 @@ class Ref:
     def length(self):
         return fresh("len", "int")
 
+    def contains(self, ev, key, *a):
+        if self.desc and self.desc[0] in ("rows", "loc") and isinstance(key, str):
+            return True          # a row selection of a table has the table's columns
+        raise Unsupported("`in` on %r" % (self,))
+
 
 def _k(x):
     if isinstance(x, Ref):
@@ -86,6 +97,24 @@ def _k(x):
     if hasattr(x, "desc"):
         return x.desc
     return x if isinstance(x, (str, int, bool, type(None))) else repr(x)
+
+
+class _Same:
+    """value-preserving conversions (.copy(), .astype(bool) of a flag column, .to_numpy())"""
+
+    def __init__(self, ref):
+        self.ref = ref
+
+    def call(self, ev, args, kwargs, lineno):
+        return self.ref
+
+
+class _Any:
+    def __init__(self, ref):
+        self.ref = ref
+
+    def call(self, ev, args, kwargs, lineno):
+        return z3.Bool("any!%s" % (self.ref.desc,))
 
 
 class _Meth:
@@ -113,6 +142,8 @@ class Frame:
             return _Cols(self)
         if attr in ("drop", "sort_index"):
             return _FMeth(self, attr)
+        if attr in getattr(self, "column_attrs", ()):
+            return Ref((self.name, attr))
         raise Unsupported("frame attribute %s (line %d)" % (attr, lineno))
 
     def setattr_(self, ev, attr, v, lineno):
@@ -129,6 +160,9 @@ class Frame:
     def length(self):
         return fresh("len", "int")
 
+    def contains(self, ev, key, *a):
+        return True              # `col in frame`: the documented columns exist
+
 
 class _Cols:
     """column set of a table: the valve table has its documented columns; other memberships are unknown"""
@@ -138,8 +172,8 @@ class _Cols:
         self.desc = (fr.name, "<columns>")
 
     def contains(self, ev, key, *a):
-        if self.fr.name in ("valve", "res_valve") and key == "et":
-            return self.fr.name == "valve"
+        if key == "et":
+            return self.fr.name == "valve"          # only the valve table has an element-type column
         return z3.Bool("col!%s!%s" % (self.fr.name, key))
 
 
